@@ -84,8 +84,8 @@ def main():
     # ------------------------------------------------------------------ proof layer
     proof = None
     if cfg.get("functions") and not args.no_proof:
-        from pyvc import proofrun
-        proof = proofrun.run_property(pid, cfg, tier, known)
+        from pyvc import proofrun, bigstack
+        proof = bigstack.run(proofrun.run_property, pid, cfg, tier, known)
         cov.update(proof["coverage"])
         evidence["assumptions"] += proof["assumptions"]
         for f in proof["failed"]:
